@@ -47,6 +47,8 @@ class Env:
 
     def frame(self, name, values, seq=None):
         fid, _tx, rx = self.ph.COMMANDS[name]
+        if isinstance(rx, dict) and len(values) < len(rx):
+            values = list(values) + E.sample_schema(rx, 0)[len(values):]  # later protocol versions append fields
         return bytes(E.header(self.version, self.last_seq if seq is None else seq, fid, callback=seq is None) + E.enc_schema(rx, values))
 
     def inject(self, name, values, seq=None):
@@ -364,9 +366,97 @@ class Joined(Harness):
         vloop.run(main)
 
 
+class Overlap(Harness):
+    """Two or three result-collecting commands overlap (a poll running while a scan runs, a further poll started after the
+    first ended): each returns exactly its own results, each completes on its own completion frame, nothing remains."""
+
+    name = "c17_overlap"
+    must_reach = ("first-ends-first", "second-ends-first", "third-started")
+    functions = ("EZSP._list_command", "EZSP.startScan", "EZSP.pollForData", "EZSP.add_callback", "EZSP.remove_callback", "EZSP.handle_callback")
+
+    def run(self, ctx, versions=(4, 8)):
+        version = versions[ctx.choice("version", len(versions))]
+        first_ends_first = ctx.flag("first_ends_first")
+        third = ctx.flag("third_command")
+
+        async def main(loop):
+            import bellows.types as t
+
+            env = Env(loop, version)
+            ez, K = env.ez, env.K
+
+            async def start(kind):
+                n0 = len(env.gw.sent)
+                if kind == "scan":
+                    names = list(env.ph.COMMANDS["startScan"][1])
+                    tk = loop.create_task(run_op(ez.startScan(**dict(zip(names, [t.EzspNetworkScanType.ENERGY_SCAN, t.Channels.ALL_CHANNELS, 3])))))
+                else:
+                    names = list(env.ph.COMMANDS["pollForData"][1])
+                    tk = loop.create_task(run_op(ez.pollForData(**dict(zip(names, [10, 1, 3])))))
+                await asyncio.sleep(0)
+                ctx.check(len(env.gw.sent) == n0 + 1, "%s was not issued" % kind, "not-issued")
+                name, seq = env.request()
+                env.inject(name, [K["ok"]], seq)
+                await asyncio.sleep(0.01)
+                return tk
+
+            poll1 = await start("poll")
+            scan = await start("scan")
+            env.inject("pollHandler", [0x1001])
+            env.inject("energyScanResultHandler", [11, -80])
+            if first_ends_first:
+                ctx.label("first-ends-first")
+                env.inject("pollCompleteHandler", [K["ok"]])
+                await asyncio.sleep(0.01)
+                ctx.check(poll1.done(), "the first poll did not complete on its completion frame", "overlap-not-completed")
+            else:
+                ctx.label("second-ends-first")
+                env.inject("scanCompleteHandler", [0, K["ok"]])
+                await asyncio.sleep(0.01)
+                ctx.check(scan.done(), "the scan did not complete on its completion frame", "overlap-not-completed")
+            poll2 = None
+            if third:
+                ctx.label("third-started")
+                poll2 = await start("poll" if first_ends_first else "scan")
+            # results for whoever is still running
+            env.inject("energyScanResultHandler", [12, -70])
+            env.inject("pollHandler", [0x1002])
+            await asyncio.sleep(0.01)
+            env.inject("scanCompleteHandler", [0, K["ok"]])
+            env.inject("pollCompleteHandler", [K["ok"]])
+            try:
+                await asyncio.sleep(1)
+            except vloop.Deadlock:
+                pass
+            what = "overlapping list commands (v%d, %s ends first%s)" % (version, "poll" if first_ends_first else "scan", ", third command" if third else "")
+            for nm, tk in (("first poll", poll1), ("scan", scan), ("third command", poll2)):
+                if tk is None:
+                    continue
+                ctx.check(tk.done(), "%s never completed although its completion frame arrived (%s)" % (nm, what), "overlap-not-completed")
+                if tk.done():
+                    ctx.check(tk.result()[0] == "ok", "%s ended with %s (%s)" % (nm, tk.result()[0], what), "overlap-outcome")
+            if poll1.done() and poll1.result()[0] == "ok":
+                got = [E.plainify(list(r))[:1] for r in poll1.result()[2]]
+                want = [[0x1001]] if first_ends_first else [[0x1001], [0x1002]]
+                ctx.check(got == want, "first poll returned %r, its results were %r (%s)" % (got, want, what), "overlap-results")
+            if scan.done() and scan.result()[0] == "ok":
+                got = [E.plainify(list(r)) for r in scan.result()[2]]
+                want = [[11, -80], [12, -70]] if first_ends_first else [[11, -80]]
+                ctx.check(got == want, "scan returned %r, its results were %r (%s)" % (got, want, what), "overlap-results")
+            for tk in (poll1, scan, poll2):
+                if tk is not None and not tk.done():
+                    tk.cancel()
+            await asyncio.sleep(0.01)
+            env.leak_check(ctx, what)
+            ctx.observe(version, first_ends_first, third)
+
+        vloop.run(main)
+
+
 STATUS = StatusOp()
 SCAN = Scan()
 JOINED = Joined()
+OVERLAP = Overlap()
 
 
 def main(tier):
@@ -381,11 +471,13 @@ def main(tier):
         c.run("checks.c17:STATUS", {"versions": [4, 8, 14], "depth": 4})
         c.run("checks.c17:SCAN", {"versions": [8, 14], "depth": 5})
         c.run("checks.c17:JOINED", {})
+        c.run("checks.c17:OVERLAP", {"versions": [4, 8, 14]})
         c.out_of_bounds += ["schedules longer than 4 (status operations) / 5 (scan) events", "versions other than 4, 8 and 14 (thorough: 4, 7, 8, 13, 14)"]
     else:
         c.run("checks.c17:STATUS", {"versions": [4, 7, 8, 13, 14], "depth": 5})
         c.run("checks.c17:SCAN", {"versions": [4, 8, 14], "depth": 6})
         c.run("checks.c17:JOINED", {"versions": [4, 5, 6, 8, 13, 14]})
+        c.run("checks.c17:OVERLAP", {"versions": [4, 5, 8, 13, 14]})
         c.out_of_bounds += ["schedules longer than 5 / 6 events"]
     return c.finish()
 
